@@ -2025,6 +2025,9 @@ class subarray : public const_subarray<T, D, ElementPtr, Layout> {
 
 	using const_subarray<T, D, ElementPtr, Layout>::reindexed;
 
+	constexpr auto reindexed(index first)  & -> subarray { return const_subarray<T, D, ElementPtr, Layout>::reindexed(first); }
+	constexpr auto reindexed(index first) && -> subarray { return const_subarray<T, D, ElementPtr, Layout>::reindexed(first); }
+
 	template<class... Indexes>
 	constexpr auto reindexed(index first, Indexes... idxs) & -> subarray {
 		return const_subarray<T, D, ElementPtr, Layout>::reindexed(first, idxs...);
@@ -2187,6 +2190,9 @@ class subarray : public const_subarray<T, D, ElementPtr, Layout> {
 	BOOST_MULTI_HD constexpr auto sliced(index first, index last) && -> subarray { return const_subarray<T, D, ElementPtr, Layout>::sliced(first, last) ; }
 	BOOST_MULTI_HD constexpr auto sliced(index first, index last)  & -> subarray { return const_subarray<T, D, ElementPtr, Layout>::sliced(first, last) ; }
 
+	constexpr auto sliced(index first, index last, index stride) && -> subarray { return this->sliced(first, last).strided(stride); }
+	constexpr auto sliced(index first, index last, index stride)  & -> subarray { return this->sliced(first, last).strided(stride); }
+
 	using const_subarray<T, D, ElementPtr, Layout>::range;
 	BOOST_MULTI_HD constexpr auto range(index_range irng)     && -> decltype(auto) {return std::move(*this).sliced(irng.front(), irng.front() + irng.size());}
 	BOOST_MULTI_HD constexpr auto range(index_range irng)      & -> decltype(auto) {return                  sliced(irng.front(), irng.front() + irng.size());}
@@ -2248,11 +2254,15 @@ class subarray : public const_subarray<T, D, ElementPtr, Layout> {
 	BOOST_MULTI_HD constexpr auto partitioned(size_type size)      & -> subarray<T, D+1, typename subarray::element_ptr> { return this->partitioned_aux_(size); }
 	BOOST_MULTI_HD constexpr auto partitioned(size_type size)     && -> subarray<T, D+1, typename subarray::element_ptr> { return this->partitioned_aux_(size); }
 
+	BOOST_MULTI_HD constexpr auto halved() const& -> decltype(auto) { return const_subarray<T, D, ElementPtr, Layout>::halved(); }
+	BOOST_MULTI_HD constexpr auto halved()      & -> subarray<T, D+1, typename subarray::element_ptr> { return this->halved_aux_(); }
+	BOOST_MULTI_HD constexpr auto halved()     && -> subarray<T, D+1, typename subarray::element_ptr> { return this->halved_aux_(); }
+
 	BOOST_MULTI_HD constexpr auto chunked(size_type size) const& -> decltype(auto) { return const_subarray<T, D, ElementPtr, Layout>::chunked(size); }
 	BOOST_MULTI_HD constexpr auto chunked(size_type size)      & -> subarray<T, D+1, typename subarray::element_ptr> { return this->chunked_aux_(size); }
 	BOOST_MULTI_HD constexpr auto chunked(size_type size)     && -> subarray<T, D+1, typename subarray::element_ptr> { return this->chunked_aux_(size); }
 
-	constexpr auto reversed() const& -> decltype(auto) { return const_subarray<T, D, ElementPtr, Layout>::reversed(); }
+	using const_subarray<T, D, ElementPtr, Layout>::reversed;
 	constexpr auto reversed()  & -> subarray { return this->reversed_aux_(); }
 	constexpr auto reversed() && -> subarray { return this->reversed_aux_(); }
 
@@ -2637,6 +2647,7 @@ class const_subarray<T, 0, ElementPtr, Layout>
 	BOOST_MULTI_HD constexpr auto unrotated() const& { return operator()(); }
 
 	auto transposed() const& = delete;
+	auto reversed() const& = delete;
 	auto flatted() const& = delete;
 	auto range() const& -> const_subarray = delete;
 
